@@ -520,7 +520,7 @@ func c04CheckCopy(r *core.Run, b *atlas.Built, cop string) *core.Fail {
 		if o.Class != "ok" {
 			return nil // refusal of a layout is not "different data"
 		}
-		if cop == "CopyTo" && (b.T.IsMaterializable() || b.T.DataOrder().IsColMajor()) {
+		if cop == "CopyTo" && (b.T.IsMaterializable() || b.T.RequiresIterator() || b.T.DataOrder().IsColMajor()) {
 			// documented as a raw copy of the underlying data: logical equality is judged for plain sources only
 			return probeDisjoint(b, dst, cop)
 		}
